@@ -132,24 +132,25 @@ func mergeConfigDict(opts *options, to, from *Config) Error {
 
 func mergeConfigArr(opts *options, to, from *Config) Error {
 	currHandling := opts.configValueHandling
-	opts, err := fieldOptsOverride(opts, "*", -1)
+	// options for the elements: the field handling selected by a "*" entry, if any
+	elemOpts, err := fieldOptsOverride(opts, "*", -1)
 	if err != nil {
 		return err
 	}
 	switch currHandling {
 	case cfgReplaceValue, cfgArrReplaceValue:
-		return mergeConfigReplaceArr(opts, to, from)
+		return mergeConfigReplaceArr(elemOpts, to, from)
 
 	case cfgArrPrepend:
-		return mergeConfigPrependArr(opts, to, from)
+		return mergeConfigPrependArr(elemOpts, to, from)
 
 	case cfgArrAppend:
-		return mergeConfigAppendArr(opts, to, from)
+		return mergeConfigAppendArr(elemOpts, to, from)
 
 	case cfgDefaultHandling, cfgMergeValues:
-		return mergeConfigMergeArr(opts, to, from)
+		return mergeConfigMergeArr(opts, elemOpts, to, from)
 	default:
-		return mergeConfigMergeArr(opts, to, from)
+		return mergeConfigMergeArr(opts, elemOpts, to, from)
 	}
 }
 
@@ -169,7 +170,11 @@ func mergeConfigReplaceArr(opts *options, to, from *Config) Error {
 	return nil
 }
 
-func mergeConfigMergeArr(opts *options, to, from *Config) Error {
+// mergeConfigMergeArr merges the lists index by index. An element is merged
+// with the field handling registered for its index (taken from opts, the
+// options in force for the list itself), otherwise with elemOpts, the options
+// selected for all elements.
+func mergeConfigMergeArr(opts, elemOpts *options, to, from *Config) Error {
 	l := len(to.fields.array())
 	arr := from.fields.array()
 	if l > len(arr) {
@@ -186,9 +191,12 @@ func mergeConfigMergeArr(opts *options, to, from *Config) Error {
 		}
 
 		// possible for individual index to be replaced
-		idxOpts, err := fieldOptsOverride(opts, "", i)
+		idxOpts, found, err := fieldOptsLookup(opts, "", i)
 		if err != nil {
 			return err
+		}
+		if !found {
+			idxOpts = elemOpts
 		}
 		old := to.fields.array()[i]
 		merged, err := mergeValues(idxOpts, old, arr[i])
@@ -592,24 +600,33 @@ func normalizeString(ctx context, opts *options, str string) (value, Error) {
 }
 
 func fieldOptsOverride(opts *options, fieldName string, idx int) (*options, Error) {
+	opts, _, err := fieldOptsLookup(opts, fieldName, idx)
+	return opts, err
+}
+
+// fieldOptsLookup returns the options to use below the field fieldName/idx and
+// whether the field handling tree has an entry for that field. If it has none,
+// no field specific handling applies below the field (entries under a '**'
+// wildcard excepted): the tree must not stay where it is, or its entries would
+// match equally named fields at a deeper level.
+func fieldOptsLookup(opts *options, fieldName string, idx int) (*options, bool, Error) {
 	if opts.fieldHandlingTree == nil {
-		return opts, nil
+		return opts, false, nil
 	}
 	cfgHandling, child, ok := opts.fieldHandlingTree.fieldHandling(fieldName, idx)
+	found := child != nil
 	child, err := includeWildcard(child, opts.fieldHandlingTree)
 	if err != nil {
-		return nil, err
+		return nil, false, err
 	}
 	if !ok {
-		// Only return a new `options` when arriving at new nested child. This
-		// combined with optimizations in `includeWildcard` will ensure that only
-		// a new opts will be created and returned when absolutely required.
-		if child != nil && opts.fieldHandlingTree != child {
+		// Only return a new `options` when required.
+		if opts.fieldHandlingTree != child {
 			newOpts := *opts
 			newOpts.fieldHandlingTree = child
 			opts = &newOpts
 		}
-		return opts, nil
+		return opts, found, nil
 	}
 	// Only return a new `options` if absolutely required.
 	if opts.configValueHandling != cfgHandling || opts.fieldHandlingTree != child {
@@ -618,7 +635,7 @@ func fieldOptsOverride(opts *options, fieldName string, idx int) (*options, Erro
 		newOpts.fieldHandlingTree = child
 		opts = &newOpts
 	}
-	return opts, nil
+	return opts, true, nil
 }
 
 func includeWildcard(child *fieldHandlingTree, parent *fieldHandlingTree) (*fieldHandlingTree, Error) {
